@@ -27,6 +27,10 @@ typedef struct vs_config {
   uint64_t hard_budget;  // after this many points: livelock verdict
   // targeted delay: change points are drawn from accesses to [watch_lo,watch_hi)
   int targeted;
+  // stall strategy: hold thread (stall_thread-1) at its stall_at-th access to the watched object for up to stall_len points
+  int stall_thread;
+  uint64_t stall_at;
+  uint64_t stall_len;
   // replay
   int n_replay;
   const uint32_t* replay_points;
@@ -50,6 +54,7 @@ typedef struct vs_result {
   uint64_t label_val[VS_MAX_LABELS];
   uint64_t trace_hash;  // hash of the decision list (distinctness)
   uint64_t tso_buffered, tso_hidden_reads;
+  uint64_t watch_hits_t[VS_MAX_THREADS];
 } vs_result_t;
 
 extern vs_result_t* vs_res;  // set by the runner before vs_begin
@@ -102,12 +107,15 @@ uint64_t vs_ticks_read(void);
 
 // stack regions (never store-buffered)
 void vs_register_stack(const void* lo, size_t len);
+// allocate from a second arena region 0x90000000 bytes above the first (addresses > 2^31 apart)
+void* vs_alloc_far(size_t n);
+// tolerate accesses to freed (never reused, still intact) memory: for harness classes where the CALLER keeps using a dead handle
+void vs_heap_allow_freed(int on);
 void vs_install_crash_handlers(void);
 
 // shadow heap
 int vs_heap_is_live(const void* p);
 int vs_heap_contains(const void* p);
-void vs_heap_quarantine_check(int on);
 // a real (blocking) libc sleep was reached
 extern int vs_real_sleep_calls;
 // hook that harnesses may set: called when a real sleep is reached
